@@ -267,6 +267,31 @@ theorem c13_oracle_complete (us : List InterleaveSpec.Unit) (frames : List (UInt
   rw [c13_stream_of_units us hw]
   simp [hf]
 
+/-- The verdict of the check on the model: for the goroutines of a playing session — the media
+    goroutine (thread 0) and any number of others that send responses only — with well-locked
+    programs and complete units, in EVERY interleaving that runs them to completion, the property
+    verdict on the byte stream, given the packets handed to the media goroutine, is "ok".  (So an
+    alarm of the stream oracle on a real session always means the code has left the model.) -/
+theorem c13_model_verdict_ok (jobs : Nat → List Job) (unit : Job → InterleaveSpec.Unit)
+    (hok : ∀ t, ∀ j ∈ jobs t, bodyOk j.body = true)
+    (hunit : ∀ t, ∀ j ∈ jobs t, (unit j).wf = true ∧ j.msg = (unit j).bytes)
+    (hresp : ∀ t, t ≠ 0 → ∀ j ∈ jobs t, ∃ r, unit j = .response r)
+    (sched : List Nat) (hfin : ∀ t, (exec (initSt (fun t => progOf (jobs t))) sched).threads t = []) :
+    judgeStream (exec (initSt (fun t => progOf (jobs t))) sched).out.flatten (framesOf ((jobs 0).map unit)) = "ok" := by
+  obtain ⟨done, hparse, hdone⟩ := c13_stream_parses jobs unit hok hunit sched hfin
+  have hmem : ∀ p ∈ done, p.2 ∈ jobs p.1 := by
+    intro p hp
+    have : p.2 ∈ doneOf done p.1 := by
+      simp only [doneOf, List.mem_map, List.mem_filter]
+      exact ⟨p, ⟨hp, by simp⟩, rfl⟩
+    rw [hdone p.1] at this
+    exact this
+  unfold judgeStream
+  rw [hparse]
+  simp only
+  rw [frames_of_done jobs unit done hmem hresp, hdone 0, isSubseq_refl]
+  rfl
+
 /-- non-vacuity of `c13_oracle_sound` / `c13_oracle_complete` (tests on literals): a frame and a response
     are accepted; a response spliced between a frame prefix and the body is a torn frame (the bytes
     still parse, into a frame that was never delivered); a body without its prefix is a torn stream. -/
